@@ -736,6 +736,78 @@ def _kind_of_method(fn: ast.AST) -> str:
     return "instance"
 
 
+def _strip_doc(body: list[ast.stmt]) -> list[ast.stmt]:
+    if body and isinstance(body[0], ast.Expr) and isinstance(body[0].value, ast.Constant) and isinstance(body[0].value.value, str):
+        return body[1:]
+    return body
+
+
+def _is_new_lock(n: ast.AST | None) -> bool:
+    return isinstance(n, ast.Call) and not n.args and not n.keywords and ast.unparse(n.func) in ("asyncio.Lock", "Lock")
+
+
+def lock_scope(ss: "Cls") -> tuple[bool, list[str], str]:
+    """Which lock serialises the locking operations of a state store object.
+
+    Returns (per_store, locking_methods, why).  `per_store` is True only for the shape "every `with` / `async with`
+    over an object that is not a call (and every explicit `.acquire()`) in the class is over ONE attribute of `self`, and that attribute is a lock created by the object for itself
+    (a `cached_property`/`property`... whose body is `return asyncio.Lock()`, or `self.<attr> = asyncio.Lock()` in
+    `__init__`), never assigned from anything else": then the lock cannot depend on the connection mode nor be shared
+    with another store object.  Anything else is reported as not-per-store with the reason.
+    """
+    used: dict[str, list[str]] = {}
+    other: list[str] = []
+    for name, fn in ss.methods.items():
+        for n in ast.walk(fn):
+            if isinstance(n, (ast.AsyncWith, ast.With)):
+                for item in n.items:
+                    expr = item.context_expr
+                    if isinstance(expr, ast.Call):
+                        continue  # a context manager made for the occasion (edit_state(), _connect(), closing(..)): not a lock object
+                    if _is_self_attr(expr):
+                        used.setdefault(expr.attr, []).append(name)  # type: ignore[attr-defined]
+                    else:
+                        other.append(f"{name}: with {ast.unparse(expr)}")
+            if isinstance(n, ast.Call) and isinstance(n.func, ast.Attribute) and n.func.attr == "acquire":
+                if _is_self_attr(n.func.value):
+                    used.setdefault(n.func.value.attr, []).append(name)  # type: ignore[attr-defined]
+                else:
+                    other.append(f"{name}: explicit {ast.unparse(n.func)}()")
+    if other:
+        return False, sorted({m for ms in used.values() for m in ms}), f"locks taken other than through one attribute of self: {other[:3]}"
+    if not used:
+        return False, [], "no locking section found in the state store"
+    if len(used) != 1:
+        return False, sorted({m for ms in used.values() for m in ms}), f"several lock attributes {sorted(used)}"
+    attr = next(iter(used))
+    methods = sorted(set(used[attr]))
+    # assignments to the attribute anywhere in the class
+    assigns = []
+    for name, fn in ss.methods.items():
+        for n in ast.walk(fn):
+            tgt = val = None
+            if isinstance(n, ast.Assign) and len(n.targets) == 1:
+                tgt, val = n.targets[0], n.value
+            elif isinstance(n, ast.AnnAssign):
+                tgt, val = n.target, n.value
+            if tgt is not None and _is_self_attr(tgt, attr):
+                assigns.append((name, val))
+    definer = ss.methods.get(attr)
+    if definer is not None:
+        if assigns:
+            return False, methods, f"self.{attr} is a method and also assigned in {[a[0] for a in assigns]}"
+        decos = _decorators(definer)
+        if not any(d.split(".")[-1] in ("cached_property",) for d in decos):
+            return False, methods, f"{attr} is not a cached_property (decorators {decos}): a new lock per access is no lock"
+        body = _strip_doc(list(definer.body))  # type: ignore[attr-defined]
+        if len(body) == 1 and isinstance(body[0], ast.Return) and _is_new_lock(body[0].value):
+            return True, methods, f"self.{attr}: cached_property returning a new asyncio.Lock()"
+        return False, methods, f"{attr} does more than return a new asyncio.Lock(): {ast.unparse(definer)[:160]!r}"
+    if len(assigns) == 1 and assigns[0][0] == "__init__" and _is_new_lock(assigns[0][1]):
+        return True, methods, f"self.{attr} = asyncio.Lock() in __init__"
+    return False, methods, f"self.{attr} is assigned {[(a[0], ast.unparse(a[1]) if a[1] is not None else None) for a in assigns]}"
+
+
 def extract(notes: list[str]) -> dict:
     res: dict[str, Any] = {"unknowns": 0, "classes": {}, "secs": [], "ops": [], "static_ops": [], "flags": {}}
     classes = [Cls(i, tag, name, rel, notes) for i, tag, name, rel in CLASSES]
@@ -865,6 +937,12 @@ def extract(notes: list[str]) -> dict:
                 elif mode_key == "fresh" or s["acquire"] != "own":
                     # never runs in this mode with a connection of its own: vacuous lifecycle
                     s[mode_key] = dict(s[mode_key])
+    per_store, lock_methods, why = lock_scope(ss)
+    flags["lockPerStore"] = per_store
+    res["lock_methods"] = lock_methods
+    res["lock_why"] = why
+    if not per_store:
+        notes.append(f"gen/sqlite_conn: the state store's lock is not private to the store object: {why}")
     res["flags"] = flags
     res["unknowns"] = sum(c.unknowns for c in classes)
     return res
@@ -903,6 +981,9 @@ def generate(notes: list[str]) -> list[str]:
          f"def createPassesShared : Bool := {_b(r['flags']['createPassesShared'])}",
          "/-- `__init__` opens the persistent connection when `single_connection` is set -/",
          f"def ctorOpensShared : Bool := {_b(r['flags']['ctorOpensShared'])}",
+         "/-- every locking section of a state store (`set_state`, `edit_state` and what goes through them) takes a lock",
+         "    the store object created for itself: not handed in, not dependent on the connection mode -/",
+         f"def lockPerStore : Bool := {_b(r['flags']['lockPerStore'])}",
          "/-- shapes the extractor could not classify -/",
          f"def unknowns : Nat := {r['unknowns']}",
          "/-- (qualified name, class, acquire 0=provider 1=own 9=unknown, writes,",
